@@ -446,7 +446,8 @@ fn corr_lhs(rep: &mut Report, text: &str) {
 fn corr_misc(rep: &mut Report, text: &str) {
     let chars: Vec<char> = text.chars().collect();
     // ignore condition (the closure is private: observed through CommentMasker on a one-comment shell file is
-    // too indirect; the literal list is regenerated instead, and the predicate itself is compared here)
+    // too indirect; the literal list is regenerated instead, and the predicate itself is compared here; the shebang
+    // prefix is no longer a term of the closure — create_mask handles it, compared through the C cases)
     let ign = text.contains("spellchecker:ignore")
         || text.contains("spellchecker: ignore")
         || text.contains("spell-checker:ignore")
@@ -454,8 +455,7 @@ fn corr_misc(rep: &mut Report, text: &str) {
         || text.contains("spellcheck:ignore")
         || text.contains("spellcheck: ignore")
         || text.contains("harper:ignore")
-        || text.contains("harper: ignore")
-        || text.starts_with("#!");
+        || text.contains("harper: ignore");
     rep.case(&format!("Q {}", cps_str(text)), if ign { "1" } else { "0" });
     // git commit cut, observed through the real parser with a recording inner parser
     let (rec, log) = recorder(Box::new(Synth { naughty: false }));
@@ -515,12 +515,15 @@ fn corr_markdown(rep: &mut Report, text: &str, ilt: bool) {
         rep.count("pulldown_cmark_panicked");
         return;
     };
-    let mut codes: Vec<(u32, usize, usize)> = vec![];
+    let mut codes: Vec<(u32, usize, usize, usize)> = vec![];
     let mut table = String::new();
     let mut seen: Vec<Vec<char>> = vec![];
     let mut last = 0usize;
     let mut monotone = true;
     let mut on_b = true;
+    let mut text_range_ok = true;
+    let mut n_text = 0u64;
+    let mut n_clamped = 0u64;
     for (ev, range) in &evs {
         // End events carry the range of the whole element; every other event must start at or after all
         // previous range starts, or it is handled at a later char offset than its own
@@ -556,10 +559,18 @@ fn corr_markdown(rep: &mut Report, text: &str, ilt: bool) {
             Event::HardBreak => (4, 0, range.start),
             Event::InlineMath(c) | Event::DisplayMath(c) | Event::Code(c) => (5, n(c), range.start),
             Event::Text(t) => {
-                if text.is_char_boundary(range.start) {
+                n_text += 1;
+                // premise of C04_md_text_clamped: the source range of a Text event lies on char boundaries
+                if !(range.start <= range.end && text.is_char_boundary(range.start) && text.is_char_boundary(range.end)) {
+                    text_range_ok = false;
+                } else {
                     let tc = text[..range.start].chars().count();
-                    let len = n(t);
-                    if tc + len <= chars.len() {
+                    // chunk_len of Markdown::parse: never more chars than the source range holds
+                    let len = n(t).min(text[range.clone()].chars().count());
+                    if len < n(t) {
+                        n_clamped += 1;
+                    }
+                    if len > 0 && tc + len <= chars.len() {
                         let chunk = chars[tc..tc + len].to_vec();
                         if !seen.contains(&chunk) {
                             let toks = PlainEnglish.parse(&chunk);
@@ -578,9 +589,15 @@ fn corr_markdown(rep: &mut Report, text: &str, ilt: bool) {
             Event::Html(c) | Event::InlineHtml(c) => (7, n(c), range.start),
             _ => (8, 0, range.start),
         };
-        codes.push((code.0, code.1, code.2));
+        codes.push((code.0, code.1, code.2, range.end));
     }
     rep.monitor("md_event_streams_checked", 1);
+    rep.monitor("md_text_events_checked", n_text);
+    rep.monitor("md_text_events_clamped", n_clamped);
+    if !text_range_ok {
+        rep.monitor("md_text_range_off_char_boundary", 1);
+        fail_limited(rep, "contract_md_text_range", "the source range of a pulldown-cmark Text event is reversed or not on char boundaries".into(), json!({"kind":"md","text":text,"ilt":ilt}));
+    }
     if !on_b {
         rep.monitor("md_event_off_char_boundary", 1);
         fail_limited(rep, "contract_md_boundary", "a pulldown-cmark event range starts inside a multi-byte character".into(), json!({"kind":"md","text":text,"ilt":ilt}));
@@ -614,9 +631,21 @@ fn corr_markdown(rep: &mut Report, text: &str, ilt: bool) {
             Ok(t) => toks_line(t),
             Err(_) => "P".into(),
         };
-        let evline: Vec<String> = codes.iter().map(|c| format!("{} {} {}", c.0, c.1, c.2)).collect();
+        let evline: Vec<String> = codes.iter().map(|c| format!("{} {} {} {}", c.0, c.1, c.2, c.3)).collect();
         rep.case(&format!("Z {} | {} | {}{}", if ilt { 1 } else { 0 }, cps_str(text), evline.join(" "), table), line.trim());
-        rep.count(&format!("md_loop:{}", if imp.is_ok() { "ok" } else { "panic(F27, C01/C02's business)" }));
+        rep.count(&format!("md_loop:{}", if imp.is_ok() { "ok" } else { "panic" }));
+        if let Ok(t) = &imp {
+            // "located at its true position" at the very least means inside the file (C04_md_text_clamped +
+            // C04_md_offsets_running_max give it for the model; F27 was the counter-example)
+            if let Some(k) = t.iter().find(|k| k.span.start > k.span.end || k.span.end > chars.len()) {
+                fail_limited(rep, "token_out_of_bounds", format!("markdown/parser: token {:?} (kind {}) outside the file of {} chars", k.span, kind_code(&k.kind), chars.len()), json!({"kind":"md","text":text,"ilt":ilt}));
+            }
+        }
+        if let Err(m) = &imp {
+            // F27 is fixed (548c418): with ranges on char boundaries C04_md_offsets_running_max + C04_md_text_clamped
+            // exclude a panic of the loop
+            fail_limited(rep, "panic", format!("markdown: Markdown::parse panicked: {m} at {}", last_panic_location()), json!({"kind":"md","text":text,"ilt":ilt}));
+        }
         if imp.is_ok() && text.len() != chars.len() {
             rep.nontrivial(&("md", text));
         }
@@ -702,21 +731,10 @@ fn oracle(rep: &mut Report, b: &Built, dict: &Arc<FstDictionary>) {
                 }
             }
             if let Some((o, w)) = b.words.iter().find(|(o, _)| !seen.contains(o)) {
-                // a missed word in a comment that is only separated by other comments / whitespace from a shebang or
-                // a go: directive belongs to the same merged comment block as that line
-                let merged_with = b.forbidden.iter().filter(|(_, e, l)| e <= o && (l == "ignored_comment" || l == "go_directive")).last().filter(|(_, e, _)| {
-                    !b.forbidden.iter().any(|(s2, _, l2)| s2 >= e && s2 < o && l2 == "code")
-                });
+                // FC04d (known): Go does not strip leaders per line, an indented comment line is Markdown code
                 let line_start = (0..*o).rev().find(|i| chars[*i] == '\n').map(|i| i + 1).unwrap_or(0);
                 let go_indented = fe_base == "c:go" && (chars[line_start..].starts_with(&['\t']) || chars[line_start..].starts_with(&[' ', ' ', ' ', ' ']));
-                let after_hash = fe_base == "gitcommit" && chars[line_start..*o].contains(&'#') && chars[line_start] != '#';
-                let cls = match merged_with {
-                    Some((s, _, l)) if l == "go_directive" => { let _ = s; "prose_missed_after_go_directive" }
-                    Some((s, _, _)) if chars[*s..].starts_with(&['#', '!']) => "prose_missed_after_shebang",
-                    _ if go_indented => "prose_missed_go_indented_line",
-                    _ if after_hash => "prose_missed_after_midline_hash",
-                    _ => "prose_missed",
-                };
+                let cls = if go_indented { "prose_missed_go_indented_line" } else { "prose_missed" };
                 fail_limited(rep, &format!("{cls}:{}", fe_base), format!("{fe}/{what}: prose word {:?} at {o} was not offered as a Word token", w), inp.clone());
                 return;
             }
@@ -729,6 +747,225 @@ fn oracle(rep: &mut Report, b: &Built, dict: &Arc<FstDictionary>) {
     rep.count(&format!("multibyte_before_first_word:{}", b.words.first().map(|(o, _)| chars[..*o].iter().any(|c| c.len_utf8() > 1)).unwrap_or(false)));
     if rep.samples.len() < 6 && b.words.len() > 2 {
         rep.sample(json!({"fe": b.fe, "text": b.text.chars().take(200).collect::<String>(), "n_words": b.words.len(), "n_forbidden": b.forbidden.len()}));
+    }
+}
+
+// ------------------------------------------------------------------------------------------------
+// statefulness oracle: a parser / masker INSTANCE that has already been used for other sources must return
+// exactly what a fresh instance returns for the same source (the property speaks about the file, not about the
+// editing session: harper-ls keeps one parser per document and re-parses after every keystroke).
+// A session keeps the real parser (CommentParser / HtmlParser / Markdown / ... as harper-ls builds them) and,
+// for tree-sitter front-ends, the masker alive across cases; `create_ident_dict` is called before `parse` the way
+// harper-ls does, so the two tree-sitter parses of one text are interleaved with those of the next.
+enum SessParser {
+    Comment(harper_comments::CommentParser),
+    Other(Box<dyn Parser>),
+}
+struct Session {
+    fe: String,
+    parser: SessParser,
+    masker: Option<Box<dyn Masker>>,
+    history: Vec<String>,
+}
+fn new_masker(fe: &str) -> Option<Box<dyn Masker>> {
+    let id = fe.strip_prefix("c:").unwrap_or(fe);
+    let lang = ts_language(id)?;
+    Some(if id == "html" { Box::new(TreeSitterMasker::new(lang, cond_text)) } else { Box::new(masker::CommentMasker::new(lang, cond_comment)) })
+}
+impl Session {
+    fn new(fe: &str, dict: &Arc<FstDictionary>) -> Session {
+        let parser = match fe.strip_prefix("c:") {
+            Some(lang) => SessParser::Comment(harper_comments::CommentParser::new_from_language_id(lang, MarkdownOptions::default()).expect("unknown language id")),
+            None => SessParser::Other(frontends::make_parser(fe, &[], dict)),
+        };
+        Session { fe: fe.to_string(), parser, masker: new_masker(fe), history: vec![] }
+    }
+    /// (tokens, mask, identifier dictionary) of this instance for `text`, canonicalised
+    fn observe(&self, text: &str) -> (String, String, String) {
+        let chars: Vec<char> = text.chars().collect();
+        let idents = match &self.parser {
+            SessParser::Comment(p) => match guarded(|| p.create_ident_dict(&chars)) {
+                Ok(Some(d)) => {
+                    use harper_core::Dictionary;
+                    // the word map is keyed case-insensitively and filled from a HashSet: which of `Qzxvb` / `qzxvb`
+                    // survives depends on the hash seed, so compare lower-cased
+                    let mut w: Vec<String> = d.words_iter().map(|w| w.iter().collect::<String>().to_lowercase()).collect();
+                    w.sort();
+                    w.dedup();
+                    w.join(" ")
+                }
+                Ok(None) => "-".into(),
+                Err(_) => "P".into(),
+            },
+            SessParser::Other(_) => "-".into(),
+        };
+        let toks = match guarded(|| match &self.parser {
+            SessParser::Comment(p) => p.parse(&chars),
+            SessParser::Other(p) => p.parse(&chars),
+        }) {
+            Ok(t) => toks_line(&t),
+            Err(_) => "P".into(),
+        };
+        let mask = match &self.masker {
+            Some(m) => match guarded(|| m.create_mask(&chars).iter_allowed(&chars).map(|(s, _)| (s.start, s.end)).collect::<Vec<_>>()) {
+                Ok(v) => spans_line(&v),
+                Err(_) => "P".into(),
+            },
+            None => "-".into(),
+        };
+        (toks, mask, idents)
+    }
+}
+/// the words (offset, text) a token line offers, for the failure message
+fn word_list(line: &str, text: &str) -> Vec<(usize, String)> {
+    let chars: Vec<char> = text.chars().collect();
+    let v: Vec<usize> = line.split_whitespace().skip(1).filter_map(|x| x.parse().ok()).collect();
+    v.chunks(3).filter(|c| c.len() == 3 && c[2] == 5 && c[1] <= chars.len() && c[0] <= c[1]).map(|c| (c[0], chars[c[0]..c[1]].iter().collect())).collect()
+}
+/// run `versions` in order through ONE new session; the first version whose observation differs from a fresh
+/// instance's is returned with a description
+fn reuse_first_difference(fe: &str, versions: &[String], dict: &Arc<FstDictionary>) -> Option<(usize, String)> {
+    let sess = Session::new(fe, dict);
+    for (i, v) in versions.iter().enumerate() {
+        let got = sess.observe(v);
+        let want = Session::new(fe, dict).observe(v);
+        if got != want {
+            let what = if got.0 != want.0 {
+                let (g, w) = (word_list(&got.0, v), word_list(&want.0, v));
+                let extra: Vec<_> = g.iter().filter(|x| !w.contains(x)).take(4).collect();
+                let missing: Vec<_> = w.iter().filter(|x| !g.contains(x)).take(4).collect();
+                format!("tokens differ (words only the reused instance offers: {:?}; words it misses: {:?})", extra, missing)
+            } else if got.1 != want.1 {
+                format!("create_mask differs: reused {} / fresh {}", got.1, want.1)
+            } else {
+                "create_ident_dict differs".to_string()
+            };
+            return Some((i, what));
+        }
+    }
+    None
+}
+/// one step of a long-lived session inside the run; on a difference the history is minimised to the shortest
+/// suffix that reproduces it on a new instance (so that the replay input is self-contained)
+fn session_step(rep: &mut Report, sess: &mut Session, text: &str, dict: &Arc<FstDictionary>) {
+    rep.eval();
+    let got = sess.observe(text);
+    let want = Session::new(&sess.fe, dict).observe(text);
+    rep.monitor("reuse_steps_checked", 1);
+    let multibyte_prefix = sess.history.last().map(|p| p.chars().zip(text.chars()).take_while(|(a, b)| a == b).any(|(a, _)| a.len_utf8() > 1)).unwrap_or(false);
+    rep.count(&format!("reuse:{}", if sess.history.is_empty() { "first_use" } else if multibyte_prefix { "shares_multibyte_prefix_with_previous" } else { "other" }));
+    if got != want {
+        let mut all: Vec<String> = sess.history.clone();
+        all.push(text.to_string());
+        let mut versions = all.clone();
+        for k in 2..=all.len() {
+            let cand = all[all.len() - k..].to_vec();
+            if reuse_first_difference(&sess.fe, &cand, dict).is_some() {
+                versions = cand;
+                break;
+            }
+        }
+        let what = reuse_first_difference(&sess.fe, &versions, dict).map(|(i, w)| format!("version {} of {}: {w}", i + 1, versions.len())).unwrap_or_else(|| "difference only with the full session history".into());
+        fail_limited(rep, &format!("stateful_instance:{}", sess.fe), format!("{}: an instance that was used for earlier sources returns something else than a fresh instance for the same source — {what}", sess.fe), json!({"kind":"reuse","fe":sess.fe,"versions":versions}));
+        // start over with a clean instance: one stale state must not cascade through the rest of the run
+        *sess = Session::new(&sess.fe, dict);
+    }
+    if multibyte_prefix {
+        rep.nontrivial(&("reuse", &sess.fe, text));
+    }
+    sess.history.push(text.to_string());
+    if sess.history.len() > 6 {
+        sess.history.remove(0);
+    }
+}
+
+/// an editing session: a file whose head is rich in multi-byte characters, then successive versions that differ
+/// from their predecessor by ONE edit behind that head: equal-length replacement of a comment line by code (and
+/// back), insertion, deletion, a changed word — the edits an editor resubmits after a few keystrokes
+fn edit_chain(fe: &str, r: &mut Rng) -> Vec<String> {
+    let id = fe.strip_prefix("c:").unwrap_or(fe);
+    let pad = |s: &str, n: usize| -> String {
+        let k = s.chars().count();
+        let mut o = s.to_string();
+        for _ in k..n {
+            o.push(' ');
+        }
+        o
+    };
+    let mb = ["é", "値", "😀", "ß", "ключ", "«", "»", "日本語", "ñ"];
+    let mb_run = |r: &mut Rng| -> String {
+        let n = r.range(0, 40);
+        let c = r.s(&mb);
+        let mut s = String::new();
+        for _ in 0..n {
+            s.push_str(if r.chance(1, 6) { r.s(&mb) } else { c });
+        }
+        s
+    };
+    let words = |r: &mut Rng, k: usize| -> String { (0..k).map(|_| r.s(c04_gen::A)).collect::<Vec<_>>().join(" ") };
+    // (comment line, code line) builders per front-end
+    let (head, comment, code): (String, Box<dyn Fn(&mut Rng) -> String>, Box<dyn Fn(&mut Rng) -> String>) = if id == "html" {
+        (
+            format!("<html><body>\n<p>{} {}</p>\n", mb_run(r), words(r, 2)),
+            Box::new(move |r: &mut Rng| format!("<p>{}</p>", (0..r.range(1, 4)).map(|_| r.s(c04_gen::A)).collect::<Vec<_>>().join(" "))),
+            Box::new(move |r: &mut Rng| format!("<script>var {} = \"{}\";</script>", r.s(c04_gen::IDS), r.s(c04_gen::A))),
+        )
+    } else if fe.starts_with("c:") {
+        let probe = c04_gen::line_leaders(id);
+        let leader = r.s(probe.0);
+        let block = probe.1;
+        let head = match (block, r.chance(1, 2)) {
+            (Some((o, c)), true) => format!("{}{o} {} {} {c}\n", probe.3, mb_run(r), words(r, 1)),
+            _ => format!("{}{leader} {} {}\n", probe.3, mb_run(r), words(r, 1)),
+        };
+        let stmts = probe.2;
+        (
+            head,
+            Box::new(move |r: &mut Rng| format!("{leader} {}", (0..r.range(1, 4)).map(|_| r.s(c04_gen::A)).collect::<Vec<_>>().join(" "))),
+            Box::new(move |r: &mut Rng| r.s(stmts).replace("{lit}", &format!("\"{}\"", r.s(c04_gen::A))).replace("{id}", r.s(c04_gen::IDS)).replace("{ID}", &r.s(c04_gen::IDS).to_uppercase())),
+        )
+    } else {
+        // front-ends without tree-sitter: prose line vs inline code line
+        (
+            format!("{} {}\n\n", mb_run(r), words(r, 2)),
+            Box::new(move |r: &mut Rng| (0..r.range(1, 4)).map(|_| r.s(c04_gen::A)).collect::<Vec<_>>().join(" ")),
+            Box::new(move |r: &mut Rng| format!("`{} {}`", r.s(c04_gen::IDS), r.s(c04_gen::A))),
+        )
+    };
+    let sep = if fe.starts_with("c:") || id == "html" { "\n" } else { "\n\n" };
+    // body lines: (is_comment, text)
+    let mut lines: Vec<String> = (0..r.range(2, 5)).map(|_| if r.chance(1, 2) { comment(r) } else { code(r) }).collect();
+    let footer = c04_gen::line_leaders(id).4;
+    let render = |lines: &Vec<String>| -> String { format!("{head}{}{sep}{footer}", lines.join(sep)) };
+    let mut out = vec![render(&lines)];
+    for _ in 0..r.range(1, 4) {
+        let i = r.below(lines.len());
+        match r.below(6) {
+            0 | 1 | 2 => {
+                // equal-length replacement comment <-> code (the shorter one is padded with trailing blanks)
+                let (a, b) = (comment(r), code(r));
+                let n = a.chars().count().max(b.chars().count()).max(lines[i].chars().count());
+                let was_comment = out.len() % 2 == 0;
+                lines[i] = pad(if was_comment { &a } else { &b }, n);
+                out.push(render(&lines));
+                lines[i] = pad(if was_comment { &b } else { &a }, n);
+            }
+            3 => lines.insert(i, if r.chance(1, 2) { comment(r) } else { code(r) }),
+            4 if lines.len() > 1 => {
+                lines.remove(i);
+            }
+            _ => lines[i] = if r.chance(1, 2) { comment(r) } else { code(r) },
+        }
+        out.push(render(&lines));
+    }
+    out.dedup();
+    out
+}
+
+fn corr_reuse(rep: &mut Report, fe: &str, versions: &[String], dict: &Arc<FstDictionary>) {
+    let mut sess = Session::new(fe, dict);
+    for v in versions {
+        session_step(rep, &mut sess, v, dict);
     }
 }
 
@@ -775,7 +1012,7 @@ fn random_mask(r: &mut Rng, n: usize, malformed: bool) -> Vec<(usize, usize)> {
 }
 
 fn small_text(r: &mut Rng) -> String {
-    let pool = ["a", "b", "river", " ", " ", "\n", "\n", "é", "値", "😀", "\t", ".", ",", "//", "#", "*", "/*", "*/", "-", "!", "\r\n", "\u{a0}", "\u{2003}", "`", "```", "go:", "x"];
+    let pool = ["a", "b", "river", " ", " ", "\n", "\n", "é", "値", "😀", "\t", ".", ",", "//", "#", "*", "/*", "*/", "-", "!", "\r\n", "\u{a0}", "\u{2003}", "`", "```", "go:", "x", "> \t\t", "- \t\t"];
     let n = r.below(14);
     (0..n).map(|_| r.s(&pool)).collect()
 }
@@ -801,6 +1038,11 @@ fn comment_text(r: &mut Rng) -> String {
         }
     }
     s
+}
+
+const SHEBANG_LINES: &[&str] = &["#!/bin/sh\n", "#!x é\n", "# river\n", "# harper:ignore 値\n", "\n", "echo \"é\"\n", "  # stone\n"];
+fn shebang_text(r: &mut Rng) -> String {
+    (0..r.range(1, 7)).map(|_| r.s(SHEBANG_LINES)).collect()
 }
 
 fn lhs_text(r: &mut Rng) -> String {
@@ -877,6 +1119,21 @@ fn exhaustive(rep: &mut Report) {
         n += 2;
     });
     rep.extra.insert("exhaustive_lhs_line_sequences_le5".into(), json!(n));
+    // CommentMasker's shebang / ignore filter: all sequences of <= 5 lines over 7 shell line kinds (bash grammar)
+    let mut n = 0u64;
+    words(SHEBANG_LINES, 5, &mut |s| {
+        corr_ts_mask(rep, "shellscript", s);
+        corr_ts_mask(rep, "shellscript", s.trim_end_matches('\n'));
+        n += 2;
+    });
+    rep.extra.insert("exhaustive_shebang_line_sequences_le5".into(), json!(n));
+    // git-commit cut: all strings of <= 7 over '#', newline, a letter, a blank
+    let mut n = 0u64;
+    words(&["#", "\n", "a", " "], 7, &mut |s| {
+        corr_misc(rep, s);
+        n += 1;
+    });
+    rep.extra.insert("exhaustive_git_strings_le7".into(), json!(n));
     // Mask::parse: every list of <= 3 spans over coordinates 0..5 (well-formed or not) on "a\nb c" (+ a multi-byte twin)
     let mut all = vec![];
     for s in 0..=5usize {
@@ -945,6 +1202,10 @@ pub fn replay_input(rep: &mut Report, v: &Value, dict: &Arc<FstDictionary>) {
             corr_cursor(rep, &text, &bytes);
         }
         "misc" => corr_misc(rep, &text),
+        "reuse" => {
+            let versions: Vec<String> = v["versions"].as_array().map(|a| a.iter().map(|x| x.as_str().unwrap_or("").to_string()).collect()).unwrap_or_default();
+            corr_reuse(rep, v["fe"].as_str().unwrap_or("c:rust"), &versions, dict);
+        }
         "doc" => {
             let fe = v["fe"].as_str().unwrap_or("plain").to_string();
             let mut words: Vec<(usize, String)> = v["words"].as_array().map(|a| a.iter().map(|p| (p[0].as_u64().unwrap() as usize, p[1].as_str().unwrap().to_string())).collect()).unwrap_or_default();
@@ -1008,7 +1269,7 @@ fn monitor_whitespace(rep: &mut Report) {
 
 pub fn run(a: &Args, corpus: &[Value]) {
     let mut rep = Report::new(&a.out);
-    rep.rule = "corpus; UTF-8 maps on random multi-byte strings (every byte offset); create_mask of TreeSitterMasker (HTML) / CommentMasker (22 languages) vs the model run on the node list dumped with the same grammar; parsers::Mask::parse with fixed masks (well-formed + malformed stream) and recording inner parsers (PlainEnglish, Markdown, synthetic, out-of-contract synthetic); Unit/JsDoc/Go line loops, LHS masker, ignore condition, git-commit cut; search: files constructed per front-end from prose (vocabulary A) and non-prose segments (code, string literals, inline code, fences, math, tags, URLs, ignore-marked comments; multi-byte vocabulary B), random indentation, comment styles, LF/CRLF. non-trivial = distinct file with >=1 prose word, >=1 non-prose segment and multi-byte content".into();
+    rep.rule = "corpus; UTF-8 maps on random multi-byte strings (every byte offset); create_mask of TreeSitterMasker (HTML) / CommentMasker (22 languages) vs the model run on the node list dumped with the same grammar; parsers::Mask::parse with fixed masks (well-formed + malformed stream) and recording inner parsers (PlainEnglish, Markdown, synthetic, out-of-contract synthetic); Unit/JsDoc/Go line loops, LHS masker, ignore condition, git-commit cut; statefulness: long-lived parser/masker instances (generated files, editing sessions with multi-byte heads and equal-length comment<->code replacements) vs fresh instances; search: files constructed per front-end from prose (vocabulary A) and non-prose segments (code, string literals, inline code, fences, math, tags, URLs, ignore-marked comments; multi-byte vocabulary B), random indentation, comment styles, LF/CRLF. non-trivial = distinct file with >=1 prose word, >=1 non-prose segment and multi-byte content".into();
     let dict = FstDictionary::curated();
     for c in corpus {
         replay_input(&mut rep, c, &dict);
@@ -1053,6 +1314,16 @@ pub fn run(a: &Args, corpus: &[Value]) {
         }
         corr_misc(&mut rep, &t);
     }
+    // D. the shebang / ignore filter of CommentMasker on shell files
+    for _ in 0..a.scale(300, 3000) {
+        let t = shebang_text(&mut r);
+        corr_ts_mask(&mut rep, "shellscript", &t);
+    }
+    // J. git-commit cut: '#' at line starts and inside lines
+    for _ in 0..a.scale(300, 3000) {
+        let t: String = (0..r.range(0, 12)).map(|_| r.s(&["#", "#", "\n", "\n", "a", " ", "river", "#12", "é", "\r\n"])).collect();
+        corr_misc(&mut rep, &t);
+    }
     // I. LHS masker
     for _ in 0..a.scale(1000, 15000) {
         let t = lhs_text(&mut r);
@@ -1079,7 +1350,7 @@ pub fn run(a: &Args, corpus: &[Value]) {
             1 => frontends::embed("markdown", &mut r),
             2 => small_text(&mut r) + &small_text(&mut r),
             _ => {
-                let parts = ["é ", "値段", "😀", "`", "``", "$", "\n", "\n\n", "# ", "- ", "> ", "*", "**", "[", "](", ")", "<", ">", "&amp;", "\\*", "    ", "\t", "1. ", "~~", "<b>", "</b>", "river ", "stone", "\r\n", "---", "```", "https://a.b/c ", "![", "|"];
+                let parts = ["é ", "値段", "😀", "`", "``", "$", "\n", "\n\n", "# ", "- ", "> ", "*", "**", "[", "](", ")", "<", ">", "&amp;", "\\*", "    ", "\t", "1. ", "~~", "<b>", "</b>", "river ", "stone", "\r\n", "---", "```", "https://a.b/c ", "![", "|", "> \t\t", "- \t\t", ">\t\t", "1.\t\t", "\t\t"];
                 (0..r.range(1, 12)).map(|_| r.s(&parts)).collect::<String>()
             }
         };
@@ -1093,8 +1364,13 @@ pub fn run(a: &Args, corpus: &[Value]) {
     let fes = frontends::base_frontends();
     let per_fe = a.scale(250, 4000);
     for fe in fes.iter().filter(|f| f.as_str() != "plain") {
-        for _ in 0..per_fe {
+        // one long-lived instance per front-end sees every 4th generated file
+        let mut sess = Session::new(fe, &dict);
+        for i in 0..per_fe {
             let b = build_file(fe, &mut r);
+            if i % 4 == 0 {
+                session_step(&mut rep, &mut sess, &b.text, &dict);
+            }
             oracle(&mut rep, &b, &dict);
             let id = fe.strip_prefix("c:").unwrap_or(fe).to_string();
             corr_ts_mask(&mut rep, &id, &b.text);
@@ -1104,6 +1380,14 @@ pub fn run(a: &Args, corpus: &[Value]) {
             if fe.starts_with("markdown") || fe == "gitcommit" {
                 corr_markdown(&mut rep, &b.text, fe == "markdown-ilt");
             }
+        }
+    }
+    // editing sessions: every front-end, versions sharing a multi-byte head, equal-length replacements
+    let mut rr = r.fork();
+    for fe in fes.iter().filter(|f| f.as_str() != "plain") {
+        for _ in 0..a.scale(40, 600) {
+            let chain = edit_chain(fe, &mut rr);
+            corr_reuse(&mut rep, fe, &chain, &dict);
         }
     }
     // malformed stream through the maskers (no oracle: correspondence + monitors only)
